@@ -171,14 +171,12 @@ theorem enter_trace (P : Prog) (ee : EE) : (f : Nat) → (st : Stmt) → (env : 
       · exact (TraceOk.stuck_of_quiet _ (Quiet.setStuck _ _)).of_quiet_left hq
       · split
         · exact TraceOk.fin_of_quiet hq
-        · split
-          · exact (TraceOk.stuck_of_quiet _ (Quiet.setStuck _ _)).of_quiet_left hq
-          · rename_i n _ _ _
-            have h := enterCalls_trace P ee f (List.replicate n.num.toNat c) env false
-              (fun k => (v, k) :: env.binds) 0 (s.readLimit ee lim env.ctx).2.pend.length true (s.readLimit ee lim env.ctx).2
-            split
-            · rename_i hall; exact (h.toFin hall).of_quiet_left hq
-            · exact h.toPar.of_quiet_left hq
+        · rename_i n _ _
+          have h := enterCalls_trace P ee f (List.replicate n.floor.toNat c) env false
+            (fun k => (v, k) :: env.binds) 0 (s.readLimit ee lim env.ctx).2.pend.length true (s.readLimit ee lim env.ctx).2
+          split
+          · rename_i hall; exact (h.toFin hall).of_quiet_left hq
+          · exact h.toPar.of_quiet_left hq
 theorem enterBlk_trace (P : Prog) (ee : EE) : (f : Nat) → (b : List Stmt) → (env : Env) → (s : St) →
     TraceOk s (enterBlk P ee f b env s).1 (enterBlk P ee f b env s).2
   | 0, _, _, s => by simp only [enterBlk]; exact TraceOk.stuck_of_quiet _ (Quiet.setStuck s _)
